@@ -829,6 +829,8 @@ class Folder:
             elif isinstance(e, ast.Name) and self.cls is not None and e.id in self.cls.assigns and self.repo.module_member(self.mod.name, e.id) is None:
                 owner_cls = self.cls
             v_mod = Folder(self.env, self.repo, owner, owner_cls, self.hook).fold(r)
+            if isinstance(v_mod, frozenset) and (isinstance(r, (ast.Set, ast.SetComp)) or (isinstance(r, ast.Call) and dotted(r.func) == "set")):
+                v_mod = set(v_mod)  # `NAME = set()` at module / class level: a mutable set, one object for the life of the process
             if not isinstance(v_mod, (int, float, str, bytes, bool, Fraction, type(None), Abstract)) or type(v_mod).__name__ in ("AObj",):
                 # a module-level object with an identity (a container, a sentinel `object()`, a compiled pattern, an instance) is
                 # ONE object for the life of the process: whoever changes it changes it for everyone after, and `x is SENTINEL`
